@@ -310,7 +310,7 @@ def run(ctx, only=None):
         ctx.say("implementation ran %d programs" % len(results))
     model_out = None
     if exe and hx:
-        lines = [P.model_line(prog, results[pid][1] if pid in results else [], "gen" if cfgbits else "11000") for pid, seed, prog in items]
+        lines = [P.model_line(prog, results[pid][1] if pid in results else [], "gen") for pid, seed, prog in items]
         model_out = run_model(exe, lines)
         for (pid, seed, prog), mo in zip(items, model_out):
             if pid not in results:
